@@ -382,11 +382,107 @@ def load_plain_unyt():
     return dict(unyt=unyt, UA=UA, UO=UO, UR=UR, US=US, UE=UE, UT=UT, AF=AF)
 
 
+# ------------------------------------------------------------------ A7: state of the freshly imported library
+
+import collections
+import copy as _copy
+import operator
+
+_BOXES = (dict, list, set, collections.OrderedDict, collections.defaultdict)
+_SIMPLE = (type(None), bool, int, float, complex, str, bytes, tuple, frozenset, np.dtype)
+_MISSING = object()
+
+
+def _box_same(box, saved):
+    if len(box) != len(saved):
+        return False
+    if isinstance(box, dict):
+        return box.keys() == saved.keys() and all(map(operator.is_, box.values(), saved.values())) \
+            and all(map(operator.is_, box.keys(), saved.keys()))
+    if isinstance(box, list):
+        return all(map(operator.is_, box, saved))
+    return box == saved  # sets hold hashable members
+
+
+class LibraryState:
+    """what `import unyt` (plus the shims) leaves in the module-level and class-level containers and simple globals of the unyt
+    modules, and in the default registry's table and string cache. unyt's lru_caches are cleared at the start of a path; anything
+    else a (changed) library keeps between calls - a memo table, a 'last dtype' global, a sticky flag on a shared object kept in a
+    module dict - would leak from one case into the next inside a worker process, while a counterexample is replayed in a fresh
+    interpreter and then does not reproduce. restore() puts everything back, so every path starts from the state of a freshly
+    imported library (generalised from harness/c17.py, where a seeded module-level memo first showed the problem)."""
+
+    def __init__(self, mods):
+        self.owners = []
+        for name, m in sorted(sys.modules.items()):
+            if (name == "unyt" or name.startswith("unyt.")) and m is not None and ".tests" not in name:
+                self.owners.append(m)
+                for v in list(vars(m).values()):
+                    if isinstance(v, type) and str(getattr(v, "__module__", "")).startswith("unyt") and v not in self.owners:
+                        self.owners.append(v)
+        self.boxes, self.names, seen = [], [], set()
+        for o in self.owners:
+            keys = {}
+            for k, v in list(vars(o).items()):
+                if k.startswith("__"):
+                    continue
+                if type(v) in _BOXES:
+                    keys[k] = v
+                    if id(v) not in seen:
+                        seen.add(id(v))
+                        self.boxes.append((v, _copy.copy(v)))
+                elif type(v) in _SIMPLE:
+                    keys[k] = v
+            self.names.append((o, keys, len(vars(o))))
+        dreg = mods["UR"].default_unit_registry
+        for box in (dreg.lut, dreg._unit_object_cache):
+            if id(box) not in seen:
+                seen.add(id(box))
+                self.boxes.append((box, _copy.copy(box)))
+        self.dreg, self.dreg_id = dreg, dreg._unit_system_id
+
+    def restore(self):
+        for box, saved in self.boxes:
+            if _box_same(box, saved):
+                continue
+            if isinstance(box, list):
+                box[:] = saved
+            else:
+                box.clear()
+                box.update(saved)
+        self.dreg._unit_system_id = self.dreg_id
+        for o, keys, size in self.names:
+            now = vars(o)
+            for k, v in keys.items():
+                if now.get(k, _MISSING) is not v:
+                    setattr(o, k, v)
+            if len(now) == size:
+                continue
+            for k in [k for k, v in list(now.items()) if k not in keys and not k.startswith("__") and type(v) in _BOXES + _SIMPLE]:
+                try:
+                    delattr(o, k)
+                except (AttributeError, TypeError):
+                    pass
+
+
+_state = {}
 _cache_fns = []
 
 
+def reset_library(mods):
+    """start of a path / of a concrete run: module-level state and the default registry are put back to the import state and
+    every lru_cache is cleared (clear_caches alone, which harnesses may call INSIDE a path, leaves module state alone)"""
+    if os.environ.get("VERIF_PRISTINE", "1") != "0":
+        st = _state.get(id(mods["unyt"]))
+        if st is None:
+            st = _state[id(mods["unyt"])] = LibraryState(mods)  # first call: nothing has run yet in this process
+        else:
+            st.restore()
+    clear_caches(mods)
+
+
 def clear_caches(mods):
-    """A7: every lru_cache in unyt modules and the default registry's unit object cache"""
+    """A7: every lru_cache in unyt modules"""
     if not _cache_fns:
         for m in (mods["UA"], mods["UO"], mods["UR"], mods["US"], mods["UE"], mods["AF"]):
             for n, f in vars(m).items():
